@@ -1,6 +1,6 @@
 (* Properties/C15.v — pinned statements only. *)
 From Boreal Require Import Base.Prelude Base.Res Model.Eval Spec.CondSem Model.EvalCost Model.Scanner
-     Proofs.InterruptProofs.
+     Proofs.InterruptProofs Proofs.ScannerProofs Proofs.NoScanInterruptProofs.
 
 (* A callback returning Abort at its k-th event: the scan returns CallbackAbort, exactly k events were
    delivered and they are the first k events of the uninterrupted scan, in the same order; if the
@@ -45,6 +45,30 @@ Theorem C15_timeout_in_globals_refuted :
   /\ ~ (2 <= i_ac_checks kf15_inputs \/ nchecks (after_globals kf15_cfg kf15_inputs kf15_scanner) < 2).
 Proof. exact timeout_in_globals_refuted. Qed.
 
+(* Callback API, configurations where rules are first evaluated without the string scan: the events
+   delivered before a timeout are a prefix of those of the complete scan, provided the timeout does not
+   fire while the global rules of that first pass are evaluated (recorded finding above) and, when it
+   fires inside the first pass, the string scan has no event of its own to deliver (match-limit events,
+   import events of a fragmented scan) — these would come first in the complete scan. *)
+Theorem C15_timeout_prefix_noscan :
+  forall c j inp sc,
+    c_cb c = true -> can_noscan c = true -> 1 <= j ->
+    wf_scanner inp sc = true -> ns_bound (s_nns sc) (s_globals sc) -> ns_bound (s_nns sc) (s_rules sc) ->
+    nchecks (fst (pass1_globals c Never inp sc (s_after_imports c inp))) < j ->
+    (j <= nchecks (fst (eval_without_matches c Never inp sc (s_after_imports c inp))) -> no_scan_events c inp) ->
+    exists later, o_events (run_scan c Never inp sc) = o_events (run_scan c (TimeoutAt j) inp sc) ++ later.
+Proof. exact timeout_prefix_noscan. Qed.
+
+(* ... and the second proviso is needed on the current tree (recorded finding
+   C15-noscan-timeout-flush-order): the handler flushes the rules decided in the first pass although
+   the complete scan delivers the match-limit event before them. *)
+Theorem C15_noscan_flush_order_refuted :
+  can_noscan kf15n_cfg = true
+  /\ o_events (run_scan kf15n_cfg Never kf15n_inputs kf15n_scanner) = [EvLimit 0; EvMatch 0; EvMatch 1]
+  /\ o_events (run_scan kf15n_cfg (TimeoutAt 2) kf15n_inputs kf15n_scanner) = [EvMatch 0]
+  /\ ~ no_scan_events kf15n_cfg kf15n_inputs.
+Proof. exact noscan_flush_order_refuted. Qed.
+
 (* the simulation itself, for every procedure of the scan: until the interruption fires both runs are
    in the same state; afterwards the uninterrupted run only appends events *)
 Theorem C15_simulation_full_scan :
@@ -66,4 +90,6 @@ Print Assumptions C15_abort_prefix.
 Print Assumptions C15_timeout_prefix.
 Print Assumptions C15_timeout_rules_prefix.
 Print Assumptions C15_timeout_in_globals_refuted.
+Print Assumptions C15_timeout_prefix_noscan.
+Print Assumptions C15_noscan_flush_order_refuted.
 Print Assumptions C15_simulation_full_scan.
